@@ -524,7 +524,20 @@ def unit_new(layout, terms_kind="dict", validate=False, timeout_ms=20000):
                 return False
             return any(obj.m_isinstance(e, n) for n in names)
         NumOp = Builtin("NumberOperator", lambda e, op: T("N", op))
-        eng.globals.update({"Tuple": TupleT(), "isinstance": Builtin("isinstance", isinstance_), "dict": TypeObj("dict"), "NumberOperator": NumOp,
+        from pyvc.models import DictType
+
+        def dict_(e, *a, **kw):
+            out = {}
+            for x in a:
+                if isinstance(x, dict):
+                    out.update(x)
+                else:
+                    for pair in e.as_seq(x).items:
+                        k_, v_ = e.as_seq(pair).items
+                        out[e.hashable(k_)] = v_
+            out.update(kw)
+            return out
+        eng.globals.update({"Tuple": TupleT(), "isinstance": Builtin("isinstance", isinstance_), "dict": DictType("dict", dict_), "NumberOperator": NumOp,
                             "_number_operator_to_placeholder": Builtin("ph", lambda e, n: T("ph", n)),
                             "sympy": Namespace("sympy", {"Expr": Namespace("Expr", {"__new__": Builtin("Expr.__new__", expr_new)})}),
                             "BosonOp": TypeObj("BosonOp"), "LadderOp": TypeObj("LadderOp"), "FermionOp": TypeObj("FermionOp"),
